@@ -41,7 +41,8 @@ SIGNED_PARSE = '''            #[verifier::external_body]
                 ensures
                     (r is Err) == (old(self).rest().len() < len),
                     r is Err ==> r->Err_0 is BufferOverflow && final(self).rest() == old(self).rest() && final(self).nz() == old(self).nz(),
-                    r is Ok ==> final(self).rest() == old(self).rest().subrange(len as int, old(self).rest().len() as int),
+                    r is Ok ==> final(self).rest() == old(self).rest().subrange(len as int, old(self).rest().len() as int)
+                        && r->Ok_0 == crate::sval(old(self).rest().subrange(0, len as int)),
             { unimplemented!() }'''
 
 PRELUDE2 = '''
@@ -62,10 +63,30 @@ pub proof fn lemma_consume(s0: Seq<bool>, k: int, m: int)
 // float operations that cannot panic, abstracted (Verus has no float arithmetic)
 #[verifier::external_body]
 pub fn verif_f32_scale(v: i16, k: f32) -> (r: f32) { unimplemented!() }
+pub uninterp spec fn i16_to_f32_spec(v: i16) -> f32;
+pub uninterp spec fn f32_mul_spec(a: f32, k: f32) -> f32;
 #[verifier::external_body]
-pub fn verif_i16_to_f32(v: i16) -> (r: f32) { unimplemented!() }
+pub fn verif_i16_to_f32(v: i16) -> (r: f32) ensures r == i16_to_f32_spec(v), { unimplemented!() }
 #[verifier::external_body]
-pub fn verif_f32_mul(a: f32, k: f32) -> (r: f32) { unimplemented!() }
+pub fn verif_f32_mul(a: f32, k: f32) -> (r: f32) ensures r == f32_mul_spec(a, k), { unimplemented!() }
+// the value a signed carrier reads from a field is a function of the field's bits (deterministic reader; unit l0bits proves which one)
+pub uninterp spec fn sval(s: Seq<bool>) -> i16;
+// unsigned value of a bit string, most significant bit first: the inverse of bits_of_int
+pub open spec fn uval(s: Seq<bool>) -> int decreases s.len() {
+    if s.len() == 0 { 0 } else { 2 * uval(s.drop_last()) + (if s.last() { 1int } else { 0int }) }
+}
+pub proof fn lemma_uval_bits(v: int, n: nat)
+    requires 0 <= v < pow2(n),
+    ensures uval(bits_of_int(v, n)) == v,
+    decreases n
+{
+    if n > 0 {
+        let b = bits_of_int(v, n);
+        assert(b.drop_last() =~= bits_of_int(v / 2, (n - 1) as nat));
+        assert(b.last() == (v % 2 == 1));
+        lemma_uval_bits(v / 2, (n - 1) as nat);
+    }
+}
 // the hand-written bias quantiser (divide by the resolution, add +-0.5 by sign, cast to i16) as an abstract function; its
 // arithmetic is decided by engine S (unit dfvc, fields df_msg10xx_biases__bias_m)
 pub uninterp spec fn bias_q(x: f32, r: f32) -> i16;
@@ -73,6 +94,7 @@ pub uninterp spec fn bias_q(x: f32, r: f32) -> i16;
 pub fn verif_bias_quant(x: f32, r: f32) -> (q: i16) ensures q == bias_q(x, r), { unimplemented!() }
 // the len-bit two's complement field written for a signed carrier value (unit l0bits: put.field_bits_msb_first on I16)
 pub uninterp spec fn sbits(v: int, len: nat) -> Seq<bool>;
+pub axiom fn axiom_sbits_len(v: int, len: nat) ensures sbits(v, len).len() == len;   // put moves the cursor by exactly len (unit l0bits: put.cursor_advances)
 pub proof fn lemma_seq_assoc(a: Seq<bool>, b: Seq<bool>, c: Seq<bool>)
     ensures (a + b) + c == a + (b + c),
 {
@@ -722,10 +744,11 @@ def emit_module(vf, exp, path, mod, depth, stats, leafs, parent_mod=None):
             m = re.search(r'par: &mut Parser\s*,\s*(.+?)\)\s*->', fr.dec_sig)
             if m:
                 extra = ', ' + m.group(1)
-            if fr.name in ('df_msg1059_biases', 'df_msg1065_biases', 'df_msg1230_biases'):
-                emit_bias_decode(vf, exp, path, fr, i2)
             if unit_l2_bias.is_bias_list(fr):
                 unit_l2_bias.emit(vf, exp, path, fr, i2)
+                unit_l2_bias.emit_decode(vf, exp, path, fr, i2)
+            elif fr.name == 'df_msg1230_biases':
+                emit_bias_decode(vf, exp, path, fr, i2)
             stub = opaque_frag_stub(fr.name, None, extra)
             if 'msm_rows' in dir() and msm_rows:
                 # row fragments only call data-field encoders: by inspection their only errors are the leaves' (assumed, listed)
